@@ -298,6 +298,16 @@ def other_inputs(rng, tier):
                 break
     except Exception:
         pass
+    # bitmap cast records whose palette numbers are neighbours (0, -1, -2, ...): a lookup cached under a shifted key shows
+    # only when such records are decoded one after the other
+    try:
+        import c15
+        for k, pal in enumerate([0, -1, -2, -3, -100, -101, 1, 2]):
+            sp = dict(kind="bitmap", fields=[0, 0x82, 0, 0, 0, 4, 4, 0, 0, 4, 4, 0, 0], tail=[8, pal], pad="",
+                      info=dict(sk=0, bd1=0, bd2=0, si=0, unknowns=[], extras=[]))
+            out.insert(0, ("cast:bitmap-pal%d" % pal, "cast", c15.enc_d4(sp), None))
+    except Exception:
+        pass
     for p in sorted((T / "bitd").glob("*/*.BITD"))[:6 if tier == "quick" else 99]:
         if p.stat().st_size > 5000:
             continue
